@@ -266,18 +266,29 @@ def rule_i1(ctx):
         f = ctx.p.get_function(HYP, f"Point.{acc}")
         r.analysed(f)
         dataparam = f.params[1]
-        set_arm = None
-        for n in f.node.body:
-            if isinstance(n, ast.If) and eval_test(
-                    n.test, {dataparam: "notnone"}) is True:
-                set_arm = n
-        if set_arm is None:
-            raise AnalysisError(f"Point.{acc}: `if {dataparam} is not None` "
-                                "arm not found")
-        setc = _convs(set_arm)
-        arm_nodes = {id(x) for x in ast.walk(set_arm)}
-        getc = [c for st in f.node.body if st is not set_arm
-                for c in _convs(st)]
+        parents = f.module.parents
+
+        def on_set_path(node):
+            """Is node only evaluated when the data parameter is given?"""
+            cur = node
+            while cur is not f.node:
+                par = parents[cur]
+                if isinstance(par, (ast.If, ast.IfExp)):
+                    t = eval_test(par.test, {dataparam: "notnone"})
+                    body = par.body if isinstance(par.body, list) else [par.body]
+                    orelse = par.orelse if isinstance(par.orelse, list) \
+                        else [par.orelse]
+                    if t is True and any(cur is b for b in body):
+                        return True
+                    if t is False and any(cur is b for b in orelse):
+                        return True
+                cur = par
+            return False
+        allc = _convs(f.node)
+        setc = [c for c in allc if on_set_path(c[2])]
+        getc = [c for c in allc if not on_set_path(c[2])]
+        if not setc and not getc:
+            raise AnalysisError(f"Point.{acc}: no chart conversion found")
         dels = {dotted(d.func) for d in _delegates(f.node)}
         inst = f"Point.{acc}"
         where = loc(f, f.node)
